@@ -404,8 +404,8 @@ theorem loadAll_wf (s : St) (h : WF s) : WF (loadAll s) := by
   refine ⟨by simp [loadAll]; have := h.1; omega, ?_⟩
   rw [ht]; exact h.2
 
-theorem autoUp_wf (s s' : St) (c : Int) (g : Bool) (h : WF s) (hr : autoUp s c g = some s') : WF s' := by
-  simp only [autoUp] at hr
+theorem autoUpPos_wf (s s' : St) (c : Int) (g : Bool) (h : WF s) (hr : autoUpPos s c g = some s') : WF s' := by
+  simp only [autoUpPos] at hr
   split at hr
   · exact cursorUp_wf s s' c h hr
   · cases hr
@@ -413,14 +413,26 @@ theorem autoUp_wf (s s' : St) (c : Int) (g : Bool) (h : WF s) (hr : autoUp s c g
     · exact setCursorPos_wf _ _ (historyBackward_wf s c h).1
     · exact historyBackward_wf s c h
 
-theorem autoDown_wf (s s' : St) (c : Int) (g : Bool) (h : WF s) (hr : autoDown s c g = some s') : WF s' := by
-  simp only [autoDown] at hr
+theorem autoDownPos_wf (s s' : St) (c : Int) (g : Bool) (h : WF s) (hr : autoDownPos s c g = some s') : WF s' := by
+  simp only [autoDownPos] at hr
   split at hr
   · exact cursorDown_wf s s' c h hr
   · cases hr
     split
     · exact setCursorPos_wf _ _ (historyForward_wf s c h).1
     · exact historyForward_wf s c h
+
+theorem autoUp_wf (s s' : St) (c : Int) (g : Bool) (h : WF s) (hr : autoUp s c g = some s') : WF s' := by
+  rcases autoUp_cases s s' c g hr with rfl | hr | hr
+  · exact h
+  · exact autoUpPos_wf s s' c g h hr
+  · exact autoDownPos_wf s s' _ g h hr
+
+theorem autoDown_wf (s s' : St) (c : Int) (g : Bool) (h : WF s) (hr : autoDown s c g = some s') : WF s' := by
+  rcases autoDown_cases s s' c g hr with rfl | hr | hr
+  · exact h
+  · exact autoDownPos_wf s s' c g h hr
+  · exact autoUpPos_wf s s' _ g h hr
 
 /-- **wf_step** — every operation keeps the working index on an existing entry and the cursor
     inside the current text. -/
@@ -589,13 +601,11 @@ theorem cursorDown_spec (s s' : St) (c : Int) (h : cursorDown s c = some s') :
   · cases h
   · cases h; simp [St.text]
 
-/-- **prefix_hits (arrow keys)** — the same for `auto_up` / `auto_down`, which either move the
-    cursor inside a multi-line text (same entry) or take a history step. -/
-theorem prefix_hits_autoUp (s s' : St) (c : Int) (g : Bool) (he : s.ehs = true)
-    (h : autoUp s c g = some s') (hmove : s'.idx ≠ s.idx) :
+theorem prefix_hits_autoUpPos (s s' : St) (c : Int) (g : Bool) (he : s.ehs = true)
+    (h : autoUpPos s c g = some s') (hmove : s'.idx ≠ s.idx) :
     let p := s.search.getD (s.text.take s.cur)
     s'.search = some p ∧ p <+: s'.text := by
-  simp only [autoUp] at h
+  simp only [autoUpPos] at h
   split at h
   · exact absurd (cursorUp_spec s s' c h).1 hmove
   · cases h
@@ -605,11 +615,11 @@ theorem prefix_hits_autoUp (s s' : St) (c : Int) (g : Bool) (he : s.ehs = true)
       exact prefix_hits_back s c he (by split at hmove <;> simp_all)
     · exact prefix_hits_back s c he (by split at hmove <;> simp_all)
 
-theorem prefix_hits_autoDown (s s' : St) (c : Int) (g : Bool) (he : s.ehs = true)
-    (h : autoDown s c g = some s') (hmove : s'.idx ≠ s.idx) :
+theorem prefix_hits_autoDownPos (s s' : St) (c : Int) (g : Bool) (he : s.ehs = true)
+    (h : autoDownPos s c g = some s') (hmove : s'.idx ≠ s.idx) :
     let p := s.search.getD (s.text.take s.cur)
     s'.search = some p ∧ p <+: s'.text := by
-  simp only [autoDown] at h
+  simp only [autoDownPos] at h
   split at h
   · exact absurd (cursorDown_spec s s' c h).1 hmove
   · cases h
@@ -618,6 +628,27 @@ theorem prefix_hits_autoDown (s s' : St) (c : Int) (g : Bool) (he : s.ehs = true
       rw [h2, h3]
       exact prefix_hits_fwd s c he (by split at hmove <;> simp_all)
     · exact prefix_hits_fwd s c he (by split at hmove <;> simp_all)
+
+/-- **prefix_hits (arrow keys)** — the same for `auto_up` / `auto_down` (any count, also zero or
+    negative), which either move the cursor inside a multi-line text (same entry) or take a
+    history step. -/
+theorem prefix_hits_autoUp (s s' : St) (c : Int) (g : Bool) (he : s.ehs = true)
+    (h : autoUp s c g = some s') (hmove : s'.idx ≠ s.idx) :
+    let p := s.search.getD (s.text.take s.cur)
+    s'.search = some p ∧ p <+: s'.text := by
+  rcases autoUp_cases s s' c g h with rfl | h | h
+  · exact absurd rfl hmove
+  · exact prefix_hits_autoUpPos s s' c g he h hmove
+  · exact prefix_hits_autoDownPos s s' _ g he h hmove
+
+theorem prefix_hits_autoDown (s s' : St) (c : Int) (g : Bool) (he : s.ehs = true)
+    (h : autoDown s c g = some s') (hmove : s'.idx ≠ s.idx) :
+    let p := s.search.getD (s.text.take s.cur)
+    s'.search = some p ∧ p <+: s'.text := by
+  rcases autoDown_cases s s' c g h with rfl | h | h
+  · exact absurd rfl hmove
+  · exact prefix_hits_autoDownPos s s' c g he h hmove
+  · exact prefix_hits_autoUpPos s s' _ g he h hmove
 
 /-! ## 7. Back k, forward k returns to the same entry and text -/
 
@@ -773,6 +804,34 @@ theorem setText_search (s : St) (t : Text) :
   · right; subst ht; split <;> simp
   · left; split <;> simp [ht, textChanged]
 
+theorem autoUpPos_searchInv (s s' : St) (c : Int) (g : Bool) (h : SearchInv s)
+    (hr : autoUpPos s c g = some s') : SearchInv s' := by
+  simp only [autoUpPos] at hr
+  split at hr
+  · obtain ⟨_, h2, h3, _⟩ := cursorUp_spec s s' c hr
+    exact searchInv_of_same s s' h2 h3 h
+  · cases hr
+    have hb := historyBackward_inv s c h
+    show SearchInv (if g = true then home (historyBackward s c) else historyBackward s c)
+    split
+    · obtain ⟨_, h2, h3, _⟩ := home_spec (historyBackward s c)
+      exact searchInv_of_same _ _ h2 h3 hb
+    · exact hb
+
+theorem autoDownPos_searchInv (s s' : St) (c : Int) (g : Bool) (h : SearchInv s)
+    (hr : autoDownPos s c g = some s') : SearchInv s' := by
+  simp only [autoDownPos] at hr
+  split at hr
+  · obtain ⟨_, h2, h3, _⟩ := cursorDown_spec s s' c hr
+    exact searchInv_of_same s s' h2 h3 h
+  · cases hr
+    have hb := historyForward_inv s c h
+    show SearchInv (if g = true then home (historyForward s c) else historyForward s c)
+    split
+    · obtain ⟨_, h2, h3, _⟩ := home_spec (historyForward s c)
+      exact searchInv_of_same _ _ h2 h3 hb
+    · exact hb
+
 /-- the operations of the property's domain: everything except the two unfiltered jumps
     (`go_to_history`, `end-of-history`), which ignore the filter by design -/
 def Op.isJump : Op → Bool
@@ -814,32 +873,18 @@ theorem searchInv_step (v : Validator) (s : St) (op : Op) (hwf : WF s) (h : Sear
     cases hr : autoUp s c g with
     | none => exact h
     | some s' =>
-      simp only [autoUp] at hr
-      split at hr
-      · obtain ⟨_, h2, h3, _⟩ := cursorUp_spec s s' c hr
-        exact searchInv_of_same s s' h2 h3 h
-      · cases hr
-        have hb := historyBackward_inv s c h
-        show SearchInv (if g = true then home (historyBackward s c) else historyBackward s c)
-        split
-        · obtain ⟨_, h2, h3, _⟩ := home_spec (historyBackward s c)
-          exact searchInv_of_same _ _ h2 h3 hb
-        · exact hb
+      rcases autoUp_cases s s' c g hr with rfl | hr | hr
+      · exact h
+      · exact autoUpPos_searchInv s s' c g h hr
+      · exact autoDownPos_searchInv s s' _ g h hr
   · next c g =>
     cases hr : autoDown s c g with
     | none => exact h
     | some s' =>
-      simp only [autoDown] at hr
-      split at hr
-      · obtain ⟨_, h2, h3, _⟩ := cursorDown_spec s s' c hr
-        exact searchInv_of_same s s' h2 h3 h
-      · cases hr
-        have hb := historyForward_inv s c h
-        show SearchInv (if g = true then home (historyForward s c) else historyForward s c)
-        split
-        · obtain ⟨_, h2, h3, _⟩ := home_spec (historyForward s c)
-          exact searchInv_of_same _ _ h2 h3 hb
-        · exact hb
+      rcases autoDown_cases s s' c g hr with rfl | hr | hr
+      · exact h
+      · exact autoDownPos_searchInv s s' c g h hr
+      · exact autoUpPos_searchInv s s' _ g h hr
   · exact searchInv_of_same s _ rfl rfl h
   · obtain ⟨_, h2, h3⟩ := validate_idx_text v s ‹Bool›
     exact searchInv_of_same s _ h3 h2 h
@@ -975,6 +1020,38 @@ theorem asyncValidate_vinv (v : Validator) (s : St) (h : VInv v s) : VInv v (asy
   · exact ⟨fun _ => hv, fun h' => by simp at h'⟩
   · exact ⟨fun h' => by simp at h', fun _ => hv⟩
 
+theorem autoUpPos_vinv (v : Validator) (s s' : St) (c : Int) (g : Bool) (h : VInv v s)
+    (hr : autoUpPos s c g = some s') : VInv v s' := by
+  simp only [autoUpPos] at hr
+  split at hr
+  · obtain ⟨_, _, h3, _⟩ := cursorUp_spec s s' c hr
+    refine vinv_same v s s' ?_ h3 h
+    simp only [cursorUp] at hr; split at hr
+    · cases hr
+    · cases hr; simp
+  · cases hr
+    show VInv v (if g = true then home (historyBackward s c) else historyBackward s c)
+    split
+    · exact vinv_either v s _ (vinv_trans_step v s _ _ (historyBackward_vstate s c)
+        (Or.inr ⟨by simp [home], by simp [home]⟩)) h
+    · exact vinv_either v s _ (historyBackward_vstate s c) h
+
+theorem autoDownPos_vinv (v : Validator) (s s' : St) (c : Int) (g : Bool) (h : VInv v s)
+    (hr : autoDownPos s c g = some s') : VInv v s' := by
+  simp only [autoDownPos] at hr
+  split at hr
+  · obtain ⟨_, _, h3, _⟩ := cursorDown_spec s s' c hr
+    refine vinv_same v s s' ?_ h3 h
+    simp only [cursorDown] at hr; split at hr
+    · cases hr
+    · cases hr; simp
+  · cases hr
+    show VInv v (if g = true then home (historyForward s c) else historyForward s c)
+    split
+    · exact vinv_either v s _ (vinv_trans_step v s _ _ (historyForward_vstate s c)
+        (Or.inr ⟨by simp [home], by simp [home]⟩)) h
+    · exact vinv_either v s _ (historyForward_vstate s c) h
+
 /-- **verdict_is_fresh** — every operation keeps "a VALID / INVALID state is the verdict of the
     validator on the *current* text" (any text or entry change resets it to UNKNOWN). -/
 theorem vinv_step (v : Validator) (s : St) (op : Op) (hwf : WF s) (h : VInv v s) :
@@ -998,36 +1075,18 @@ theorem vinv_step (v : Validator) (s : St) (op : Op) (hwf : WF s) (h : VInv v s)
     cases hr : autoUp s c g with
     | none => exact h
     | some s' =>
-      simp only [autoUp] at hr
-      split at hr
-      · obtain ⟨_, _, h3, _⟩ := cursorUp_spec s s' c hr
-        refine vinv_same v s s' ?_ h3 h
-        simp only [cursorUp] at hr; split at hr
-        · cases hr
-        · cases hr; simp
-      · cases hr
-        show VInv v (if g = true then home (historyBackward s c) else historyBackward s c)
-        split
-        · exact vinv_either v s _ (vinv_trans_step v s _ _ (historyBackward_vstate s c)
-            (Or.inr ⟨by simp [home], by simp [home]⟩)) h
-        · exact vinv_either v s _ (historyBackward_vstate s c) h
+      rcases autoUp_cases s s' c g hr with rfl | hr | hr
+      · exact h
+      · exact autoUpPos_vinv v s s' c g h hr
+      · exact autoDownPos_vinv v s s' _ g h hr
   · next c g =>
     cases hr : autoDown s c g with
     | none => exact h
     | some s' =>
-      simp only [autoDown] at hr
-      split at hr
-      · obtain ⟨_, _, h3, _⟩ := cursorDown_spec s s' c hr
-        refine vinv_same v s s' ?_ h3 h
-        simp only [cursorDown] at hr; split at hr
-        · cases hr
-        · cases hr; simp
-      · cases hr
-        show VInv v (if g = true then home (historyForward s c) else historyForward s c)
-        split
-        · exact vinv_either v s _ (vinv_trans_step v s _ _ (historyForward_vstate s c)
-            (Or.inr ⟨by simp [home], by simp [home]⟩)) h
-        · exact vinv_either v s _ (historyForward_vstate s c) h
+      rcases autoDown_cases s s' c g hr with rfl | hr | hr
+      · exact h
+      · exact autoDownPos_vinv v s s' c g h hr
+      · exact autoUpPos_vinv v s s' _ g h hr
   · exact vinv_same v s _ rfl rfl h
   · exact validate_vinv v s _ h
   · exact asyncValidate_vinv v s h
@@ -1646,5 +1705,62 @@ example : let vs0 : ViSt := viPromptStart { st := St.fresh ["one".toList, "two".
     let vs := (viKeyStep exV (viKeyStep exV (viKeyStep exV vs0 .escape).1 (.k 1)).1 (.k 1)).1
     vs.nav = true ∧ vs.st.idx = 0 ∧ vs.st.text = "one".toList ∧ vs.st.cur = 0 ∧
     vs.st.storage = ["one".toList, "two".toList] := by decide
+
+/-! ## 19. The main theorems instantiated on the concrete session `exS` (their hypotheses are
+    dischargeable, so none of them is vacuous) -/
+
+theorem exS_wf : WF exS := by unfold WF; decide
+theorem exS_inv : Inv exV exS := by
+  have h0 : Inv exV (promptStart (St.fresh ["a".toList, "b".toList, "ab".toList] true false) []) := by
+    obtain ⟨_, _, _, _, _, p6, _, p8, p9⟩ :=
+      next_prompt_clean (St.fresh ["a".toList, "b".toList, "ab".toList] true false) [] (fresh_hinv _ _ _)
+    exact ⟨p9, vinv_unknown _ _ p6, fun _ => p8.2⟩
+  exact inv_run exV _ _ h0 (by intro op ho; simp at ho; subst ho; trivial)
+
+example : (historyForward (historyBackward exS 2) 2).idx = exS.idx ∧
+    (historyForward (historyBackward exS 2) 2).text = exS.text :=
+  let h := back_forth exS 2 exS_wf (by decide) (by decide) (by decide)
+  ⟨h.1, h.2.2.1⟩
+
+example : (historyBackward exS 1).search = some "a".toList ∧ "a".toList <+: (historyBackward exS 1).text :=
+  prefix_hits_back exS 1 (by decide) (by decide)
+
+example : (step exV exS (.histBack 1)).1.storage = exS.storage :=
+  (nav_preserves_hist exV exS (.histBack 1) rfl).2.1
+
+example : (step exV exS (.insert "zz".toList)).1.work[1]? = exS.work[1]? :=
+  (edit_only_at_idx exV exS (.insert "zz".toList) rfl).2.2.2.2 1 (by decide)
+
+example : SearchInv (run exV exS [.histBack 1, .histBack 1, .histFwd 3, .insert "q".toList, .autoUp 1 false]) :=
+  searchInv_run exV _ exS exS_wf (searchInv_none exS (by decide))
+    (by intro op ho; simp at ho; rcases ho with rfl | rfl | rfl | rfl | rfl <;> exact ⟨trivial, rfl⟩)
+
+/-- rejected accept on the recalled and edited entry "abx" -/
+example : let s := run exV exS [.histBack 1, .insert "x".toList, .home]
+    (validateAndHandle exV s true).2 = none ∧ (validateAndHandle exV s true).1.work = s.work ∧
+    (validateAndHandle exV s true).1.storage = s.storage ∧ (validateAndHandle exV s true).1.cur = 3 := by
+  intro s
+  have h := reject_no_change exV s true 6 (by decide) (by decide)
+  exact ⟨h.1, h.2.1, h.2.2.2.2.2.1, by rw [h.2.2.2.2.2.2.2.2]; decide⟩
+
+example : (validateAndHandle exV exS true).2 = some exS.text ∧
+    (validateAndHandle exV exS true).1.storage = exS.storage ++ ["a".toList] := by
+  have h := accept_appends_once exV exS true exS_inv.2.1 (by decide)
+  refine ⟨h.1, ?_⟩
+  rw [h.2.2]; decide
+
+example : let r := validateAndHandle exV (run exV (promptStart exS "a".toList) [.histBack 1, .histFwd 1]) true
+    (promptStart r.1 []).work = r.1.storage ++ [[]] :=
+  (prompt_cycle exV exS "a".toList [] [.histBack 1, .histFwd 1] exS_inv
+    (by intro op ho; simp at ho; rcases ho with rfl | rfl <;> exact ⟨rfl, trivial⟩) (by decide)).2.2.1
+
+example : ∃ n, (run exV exS [.histBack 1, .loadOne, .histFwd 1]).work[2 + n]? = some "ab".toList :=
+  edited_entry_survives exV [.histBack 1, .loadOne, .histFwd 1] exS 2 "ab".toList
+    (by intro op ho; simp at ho; rcases ho with rfl | rfl | rfl <;> simp [Op.isNav]) (by decide)
+
+-- `auto_up` with a negative count goes down, with zero it does nothing (the fix 4885d55)
+example : autoUp (run exV exS [.histBack 2]) (-2) false = autoDownPos (run exV exS [.histBack 2]) 2 false ∧
+    ((autoUp (run exV exS [.histBack 2]) (-2) false).map (·.idx)) = some 3 ∧
+    autoUp exS 0 true = some exS := by decide
 
 end Ptk.C14
